@@ -4,6 +4,7 @@ use crate::trace::Trace;
 
 pub mod c08;
 pub mod c09;
+pub mod c10;
 pub mod c11;
 pub mod c12;
 pub mod c14;
@@ -20,6 +21,7 @@ pub fn make_checker(trace: &Trace, session: usize) -> Box<dyn Checker> {
         "C08" => Box::new(c08::C08Checker::new(trace, session)),
         "C12" => Box::new(c12::C12Checker::new(trace, session)),
         "C09" => Box::new(c09::C09Checker::new(trace, session)),
+        "C10" => Box::new(c10::C10Checker::new(trace, session)),
         "C20" => Box::new(c20::C20Checker::new(trace, session)),
         _ => Box::new(Nop),
     }
